@@ -216,6 +216,52 @@ func cost(graphSpec, topS, bottomS string) string {
 		t1.Sub(t0).Nanoseconds(), t2.Sub(t1).Nanoseconds(), t3.Sub(t2).Nanoseconds())
 }
 
+// conflicts: output-conflict detection (analysis.detectOutputConflicts via BuildGraph) has no
+// recursion to count; its work is proportional to the nodes popped from getAncestorSet's stack,
+// and every pop calls GetLabel() on the popped node.  Every other node is a real Target
+// declaring the same file output (so that all pairs are compared), the rest are counting
+// nodes; the reported number is the count of GetLabel() calls on the counting nodes during
+// BuildGraph (edge insertion and cycle detection included, both linear).  It depends on map
+// iteration order and is compared with the polynomial bound only.
+type lnode struct {
+	cnode
+	labels *int
+}
+
+func (c *lnode) GetLabel() label.TargetLabel { *c.labels++; return c.lbl }
+
+func conflicts(graphSpec string) string {
+	specs := w.SplitComma(graphSpec)
+	labels, sel := 0, 0
+	lbl := func(i int) label.TargetLabel { return label.TargetLabel{Package: "g", Name: fmt.Sprintf("n%d", i)} }
+	nodeMap := make(model.BuildNodeMap)
+	for i, sp := range specs {
+		var deps []label.TargetLabel
+		if sp != "-" {
+			for _, d := range splitDot(sp) {
+				j, _ := strconv.Atoi(d)
+				deps = append(deps, lbl(j))
+			}
+		}
+		if i%2 == 0 {
+			nodeMap[lbl(i)] = &model.Target{Label: lbl(i), Command: "true", Dependencies: deps,
+				Outputs: []model.Output{model.NewOutput("file", "same.out")}}
+		} else {
+			nodeMap[lbl(i)] = &lnode{cnode: cnode{lbl: lbl(i), deps: deps, count: &sel}, labels: &labels}
+		}
+	}
+	t0 := time.Now()
+	_, err := analysis.BuildGraph(nodeMap)
+	res := "ok"
+	if err != nil {
+		res = "conflict"
+		if !strings.Contains(err.Error(), "conflicting outputs") {
+			return "graph-error " + err.Error()
+		}
+	}
+	return fmt.Sprintf("conflicts\t%d\t%s\tns\t%d", labels, res, time.Since(t0).Nanoseconds())
+}
+
 func main() {
 	w.Loop(func(f []string) string {
 		switch f[0] {
@@ -261,6 +307,8 @@ func main() {
 				ints(wd.idxOf(wd.graph.GetDependants(wd.nodes[i])))
 		case "cost":
 			return cost(f[1], f[2], f[3])
+		case "conflicts":
+			return conflicts(f[1])
 		}
 		return "unknown-command " + f[0]
 	})
